@@ -1010,7 +1010,15 @@ func runC05(c *Ctx) {
 
 	// exact decisions first (c05exact.go): where one succeeds, the structural
 	// rules about the same decoder are only its fall-back
-	v4LabelExact(c, "C05") // the octet test behind indexFirstV4Label (ExtractReversedAddr)
+	// the octet test behind indexFirstV4Label (ExtractReversedAddr); no
+	// structural rule stands behind it in this check, so a predicate outside
+	// the evaluator's grammar is undecided here
+	if !v4LabelExact(c, "C05") {
+		if f := c.fn("netutil", "isIPv4Label"); f != nil {
+			c.undecided("C05.v4.label-exact", f, "isIPv4Label(label) <=> label is a decimal 0..255 without leading zero", nil,
+				"the predicate is outside the exact evaluator's grammar (see the notes of the evidence); the extractor's longest-suffix clause rests on it")
+		}
+	}
 	idxExact := c05IndexExact(c)
 	if len(idxExact) == 2 {
 		c.L.Floor("C05.label-aligned", 1)
